@@ -88,14 +88,23 @@ def run(ctx):
             seen.clear()
             o = it.construct(cq, *P)
             c = it.call(it.closure_of('path.crop_bezier'), [o, T0, T1], {})
-            return c, it.call_method(c, 'point', U), dict(seen)
+            sub = {}
+            if path_sign(it, T0) == frozenset('0'):
+                sub['t0'] = Rat.const(0)
+            if path_sign(it, T1 - 1) == frozenset('0'):
+                sub['t1'] = Rat.const(1)
+            return c, it.call_method(c, 'point', U), dict(seen), sub
 
         def judge(v, P=P):
-            c, pt, seen = v
-            if 'origin' not in seen:
-                # decided by the end-point shortcuts on this path
-                return True, ''
+            c, pt, seen, sub = v
             B = lambda x: bernstein(P, x)
+            if 'origin' not in seen:
+                # no numeric relocation on this path (end-point shortcuts, or a closed form): the piece must be exactly B restricted to [t0,t1]
+                exp = B(T0 + U * (T1 - T0))
+                if sub:
+                    exp, pt = to_rat(exp).subst(sub), to_rat(pt).subst(sub)
+                ok, d = decide_equal(pt, exp)
+                return ok, '' if ok is True else 'the cropped piece is not the curve restricted to [t0, t1]: ' + d
             return decide_all_equal([
                 ('curve handed to radialrange is the [t0,1] trim', seen['recv_point'], B(T0 + U * (1 - T0))),
                 ('query point is point(t1)', seen['origin'], B(T1)),
